@@ -137,6 +137,11 @@ def context_hashes(analysed):
                         and isinstance(n.value.value, str):
                     continue              # docstring / bare string
                 if isinstance(n, (ast.FunctionDef, ast.AsyncFunctionDef)):
+                    # type annotations do not run: not part of the context
+                    n.returns = None
+                    for a_ in (n.args.posonlyargs + n.args.args + n.args.kwonlyargs
+                               + [x for x in (n.args.vararg, n.args.kwarg) if x is not None]):
+                        a_.annotation = None
                     q = prefix + n.name
                     n.body = [ast.Pass()] if q in analysed else strip(n.body, q + '.')
                 elif isinstance(n, ast.ClassDef):
